@@ -1,7 +1,10 @@
 # C03 / C18 / C08 (session 4, T26 `ctor`): the thin wrappers users call around the proved cores  ->  Gen/AlgoCtor.lean
 #   swcgeom/core/swc_utils/checker.py     is_binary_tree, check_single_root            (deprecated spellings)
 #   swcgeom/core/tree.py                  Tree.get_bifurcations;  swcgeom/core/node.py  Node.is_bifurcation   (deprecated spellings)
-MODULE_IMPORTS["AlgoCtor"] = ["AlgoCheckers", "AlgoNormalizer", "AlgoSort", "AlgoRepair", "AlgoNode", "AlgoBranches"]
+#   (the two groups go to two modules, Gen/AlgoCtor.lean (C03 / C18) and Gen/AlgoCtorTree.lean (C08), so that a change of normalizer.py / checker.py
+#   cannot break the generated module of C08 and vice versa)
+MODULE_IMPORTS["AlgoCtor"] = ["AlgoCheckers", "AlgoNormalizer", "AlgoSort", "AlgoRepair"]
+MODULE_IMPORTS["AlgoCtorTree"] = ["AlgoNode", "AlgoBranches"]
 CALLEES["is_bifurcate"] = "is_bifurcate"
 
 _CK = "swcgeom/core/swc_utils/checker.py"
@@ -18,12 +21,12 @@ spec(lean="check_single_root", module="AlgoCtor", file=_CK, func="check_single_r
      call_alias={"is_single_root": ("is_single_root", ["ids", "pids"])},
      doc="`swcgeom/core/swc_utils/checker.py::check_single_root` (`*args` is the frame: its two columns `ids`, `pids`)")
 
-spec(lean="get_bifurcations", module="AlgoCtor", file=_TREE, cls="Tree", func="get_bifurcations",
+spec(lean="get_bifurcations", module="AlgoCtorTree", file=_TREE, cls="Tree", func="get_bifurcations",
      params=["ids", "pids"], vars={"ids": "List Int", "pids": "List Int"}, ret="List Int", fuel=True,
      tree_cols={"self": {"id": "ids", "pid": "pids"}},
      doc="`swcgeom/core/tree.py::Tree.get_bifurcations` (the tree is its two topology columns; a `Node` of the result is its id)")
 
-spec(lean="node_is_bifurcation", module="AlgoCtor", file="swcgeom/core/node.py", cls="Node", func="is_bifurcation",
+spec(lean="node_is_bifurcation", module="AlgoCtorTree", file="swcgeom/core/node.py", cls="Node", func="is_bifurcation",
      params=["ids", "pids", "self"], vars={"ids": "List Int", "pids": "List Int", "self": "Node@self.attach"}, ret="Bool", tree_cols=_ATT)
 
 
